@@ -42,7 +42,8 @@ RULE = ("probe item with three condition groups x {0,1,2 conditions} drawn from 
         "that set state, rename a field (also in a field reference), change the log source (each optionally conditioned); "
         "suffix probe on a rule without / with field references, drop probe on a rule with field references, optionally "
         "after the same pipeline object converted another rule; distinct = distinct pipeline; non-trivial = at least one "
-        "condition group with >= 1 condition")
+        "condition group with >= 1 condition"
+        "; optionally after the same pipeline object converted another rule, with a nested pipeline that reads and overrides state, and with a drop probe on a rule with field references")
 ASSUMPTIONS = [
     "trusted Python: reading of the rule document into the specification's World (flat detection items, value kinds, attribute types) and the pipeline description",
     "regular-expression matching (match_string, include_fields/exclude_fields in re mode) is a parameter of the Lean specification: a table computed by Python re.match per request; the driver refuses a request whose table lacks an entry it needs",
